@@ -1128,7 +1128,6 @@ def match_histories(H0, H1):
 
 KEY_INIT_PHI = 'compute_sfs:initial-phi-ignores-root-size'
 KEY_EXPORT_ADMIX = 'export:admixed-population-reimported-as-merger'
-EXPORT_TOL_REORDERED = 2e-3
 
 def export_phase(ctx, progs, pulses_bad, pnu):
     rng = ctx.rng
@@ -1150,6 +1149,9 @@ def export_phase(ctx, progs, pulses_bad, pnu):
                           'gen_time': 25 if f == 'gutenkunst_ooa.yaml' else None})
         for i, p in enumerate(progs):
             p['id'] = i
+    for p in progs:
+        if p.get('ops') is not None:
+            p['ops_norm'] = G.normalize_program(p['ops'])
     res = impl_chunks('export', progs, size=30)
     byid = {r['id']: r for r in res}
     for p in progs:
@@ -1193,17 +1195,32 @@ def export_phase(ctx, progs, pulses_bad, pnu):
         sig = json.dumps(ops) if ops else p['tag']
         ctx.case(signature=sig, sample={'ops': ops[:8], 'exported_demes': [d['name'] for d in r['graph']['demes']][:10], 'fs0_head': r['fs0']['data'][:4]})
         okp, same, why = match_histories(history(r['calls0']), history(r['calls1']))
-        ctx.count('export: re-import integrates in the same population order' if same else 'export: re-import integrates in another population order')
-        e = fs_rel(r['fs0'], r['fs1'])
-        tol = EXPORT_TOL if same or not okp else EXPORT_TOL_REORDERED
-        ok = e is not None and e <= tol
-        if ok and e > 0:
-            ctx.err('export:spectrum (same order)' if same else 'export:spectrum (other order: operator splitting differs)',
-                    int(math.floor(math.log2(e))), 'tol %g relative to the largest entry' % tol)
+        # numeric reference: the original run when the re-import integrates in the same population order, else the same
+        # model written in creation order (no reorder_pops); the alternating-direction scheme depends on the order of
+        # the axes at the level of its discretisation error (several per cent on 5-point grids), so a spectrum computed
+        # in another order is not comparable at 1e-8
+        ref = None
+        if same:
+            ref = r['fs0']; refname = 'original run'
+        elif 'callsN' in r:
+            okn, samen, _ = match_histories(history(r['callsN']), history(r['calls1']))
+            if okn and samen:
+                ref = r['fsN']; refname = 'original model written in creation order'
+        ctx.count('export: numeric reference = %s' % (refname if ref is not None else 'none (other population order)'))
+        e0 = fs_rel(r['fs0'], r['fs1'])
+        if e0 is not None and e0 > 0 and not same:
+            ctx.err('export:spectrum vs original run in another population order (informative)', int(math.floor(math.log2(e0))), 'not required')
+        e = fs_rel(ref, r['fs1']) if ref is not None else None
+        ok = ref is None or (e is not None and e <= EXPORT_TOL)
+        if ref is not None and ok and e > 0:
+            ctx.err('export:spectrum (same population order)', int(math.floor(math.log2(e))), 'tol %g relative to the largest entry' % EXPORT_TOL)
         ctx.obligation('export case %d (%s): re-imported program = original program up to relabelling of the populations' % (p['id'], p['tag']),
                        okp, 'correspondence', why)
-        ctx.obligation('export case %d (%s): re-imported spectrum = original spectrum (tol %g)' % (p['id'], p['tag'], tol), ok, 'predicate',
-                       '' if ok else 'relative deviation %r' % (e,))
+        if ref is not None:
+            ctx.obligation('export case %d (%s): re-imported spectrum = spectrum of the %s (tol %g)' % (p['id'], p['tag'], refname, EXPORT_TOL), ok, 'predicate',
+                           '' if ok else 'relative deviation %r' % (e,))
+        if e is None:
+            e = e0
         if not ok or not okp:
             key = keys[0] if keys else None
             for o in ctx.obligations[-2:]:
